@@ -198,6 +198,12 @@ def make_case(rng, kind, tier="quick"):
             if dup:
                 case["ids"] = ids = sorted(set(ids))
         case["progress_cb"] = rng.random() < 0.3 and idform != "tuple"
+        if case["progress_cb"] and ids and not dup and rng.random() < 0.5 and all(b["k"] == "val" for b in beh.values()) \
+                and case["tolerate"]:
+            # the report's host map does not list every submitted id (api.diff with ids outside the loader's report):
+            # PoolProgressLogger then raises KeyError for them; the pool files the id as failed - it must not lose it
+            miss = [i for i in sorted(set(ids)) if rng.random() < 0.4] or [sorted(set(ids))[0]]
+            case["progress_missing"] = miss
         style2 = rng.choice(["fast", "slow-consumer", "slow-tasks", "fast"])
         if style2 == "slow-consumer":
             case["cons"] = rng.choice([60, 150, 300]) if n <= 12 else 20
@@ -602,7 +608,8 @@ def _run_case(case, logpath):
         p.add_callback(itcb, in_thread=True)
     if case.get("progress_cb"):
         from annet.api import PoolProgressLogger
-        p.add_callback(PoolProgressLogger({real_id(case, i): "host%d.example" % i for i in set(case["ids"])}))
+        p.add_callback(PoolProgressLogger({real_id(case, i): "host%d.example" % i for i in set(case["ids"])
+                                           if i not in case.get("progress_missing", ())}))
     res = dict(end="done", delivered=[])
     t0 = time.monotonic()
     try:
@@ -959,7 +966,7 @@ def diagnose(case, log):
 
 def requests(case):
     q = _STASH.get(_key(case))
-    if not q:
+    if not q or case.get("progress_missing"):
         return []
     st = q[-1]
     cfg = lean_cfg(case)
@@ -978,6 +985,8 @@ def requests(case):
 
 def model(case, resp):
     st = _STASH[_key(case)].popleft()
+    if case.get("progress_missing"):
+        return {"skip": True}      # the callback's KeyError is outside the pool model; the oracle judges these runs
     for r in resp:
         if "fail" in r and len(r) == 1:
             return {"driver-fail": r["fail"]}
@@ -1047,6 +1056,15 @@ def oracle(case, r):
     delivered = r.get("delivered")
     if delivered is None:
         return [dict(sig="bad-end", what="no result from the run: %r" % (end,))]
+    if case.get("progress_missing"):
+        # the host map of the progress callback misses some ids: whatever the callback does with them (today: KeyError,
+        # the pool files the id as failed), every submitted id must still come out exactly once
+        got = collections.Counter(x[0] for x in delivered)
+        if got != collections.Counter(ids):
+            lost = sorted((collections.Counter(ids) - got).elements())
+            return [dict(sig="result-lost-by-progress-callback", what="ids %r (not listed in the PoolProgressLogger host map: %r) "
+                         "were submitted and never delivered; delivered ids %r" % (lost, case["progress_missing"], sorted(got.elements())))]
+        return []
     want_all = collections.Counter(json.dumps([i, exp[i]]) for i in ids)
     have = collections.Counter(json.dumps(x) for x in delivered)
     if isinstance(end, list) and end[0] == "RuntimeError":
@@ -1193,6 +1211,8 @@ def stats(case, r):
         lab.append("duplicate-ids")
     if case.get("warm"):
         lab.append("second-run-on-same-Parallel-object")
+    if case.get("progress_missing"):
+        lab.append("progress-map-misses-ids")
     if any(b.get("trans") for b in case["beh"].values()):
         lab.append("transient-net-errors")
     d = r.get("diag") or {}
